@@ -29,6 +29,8 @@ func init() {
 		Rule{ID: "R01f", Doc: "the id conversion cannot wrap to a live id (shared with C05)", Floor: 2, Run: r01fTransport},
 		Rule{ID: "R06a", Doc: "idle-set insert discipline", Floor: 4, Run: r06a},
 		Rule{ID: "R06b", Doc: "who may release a connection", Floor: 2, Run: r06b},
+		Rule{ID: "R01g", Doc: "the decoder is given exactly the received bytes, never the rest of a recycled buffer (shared with C01)", Floor: 8, AllVariants: true, Run: r01g},
+		Rule{ID: "R20h", Doc: "pooled buffers are not handed to slice-retaining library calls and then released (shared with C20)", Floor: 5, Run: r20h},
 	)
 }
 
